@@ -214,18 +214,18 @@ Section Num.
     /\ (forall ws, conv_elem true c ws (item_nv v) = Ok v)
     /\ (lowers (wv w) = none_s -> v = PNone) /\ (lowers (wv w) = auto_s -> v = PAuto).
   Proof.
-    intros I Sm H. unfold elem_as_word in H. apply bind_ok in H as (u & Hc & H).
+    intros I Sm H. unfold elem_as_word in H.
     destruct v as [| |n|l]; try contradiction.
     - (* None *)
-      cbn [check_value_py] in Hc. destruct (none_el c) eqn:NE; [|discriminate]. inversion H; subst w.
+      destruct (none_el c) eqn:NE; [|discriminate]. inversion H; subst w.
       repeat split; try apply none_oktext; try reflexivity.
       + intros ws. cbn [item_nv conv_elem]. rewrite NE. reflexivity.
       + discriminate.
-    - cbn [check_value_py] in Hc. destruct (auto_el c) eqn:AE; [|discriminate]. inversion H; subst w.
+    - destruct (auto_el c) eqn:AE; [|discriminate]. inversion H; subst w.
       repeat split; try apply auto_oktext; try reflexivity.
       + intros ws. cbn [item_nv conv_elem]. rewrite AE. reflexivity.
       + discriminate.
-    - destruct n as [z| | | | |]; try contradiction.
+    - destruct n as [z| | | | |]; try contradiction. apply bind_ok in H as (u & Hc & H).
       cbn [check_value_py] in Hc. apply check_value_bounds in Hc.
       apply bind_ok in H as (s & Hs & H). inversion H; subst w. cbn [value_as_str] in Hs.
       assert (Hz : (Z.abs z < B4300)%Z) by exact Sm.
